@@ -56,6 +56,7 @@ type Tape struct {
 	Perms     []uint32 `json:"perms,omitempty"`
 	Clocks    []uint32 `json:"clocks,omitempty"`
 	Pools     []uint32 `json:"pools,omitempty"`
+	RMWs      []uint32 `json:"rmws,omitempty"`
 	StepCap   int64    `json:"step_cap,omitempty"`
 	ClockBase int64    `json:"clock_base,omitempty"`
 	// Procs is what runtime.GOMAXPROCS(0) and runtime.NumCPU() return to the code
@@ -73,7 +74,7 @@ func (t *Tape) config() *simrt.Config {
 }
 
 func (t *Tape) configKeep() *simrt.Config {
-	return &simrt.Config{Gaps: t.Gaps, Picks: t.Picks, Edges: t.Edges, Perms: t.Perms, Clocks: t.Clocks, Pools: t.Pools,
+	return &simrt.Config{Gaps: t.Gaps, Picks: t.Picks, Edges: t.Edges, Perms: t.Perms, Clocks: t.Clocks, Pools: t.Pools, RMWs: t.RMWs,
 		StepCap: t.StepCap, ClockBase: t.ClockBase, SpinSleep: spinSleep, Procs: t.Procs}
 }
 
@@ -106,6 +107,18 @@ func genTape(r *rng, p TapeParams) *Tape {
 			t.Picks[i] = uint32(r.intn(1 << 16))
 			if r.chance(p.EdgePct, 100) {
 				t.Edges[i] = 1
+			}
+		}
+		// read-modify-write statements on shared locations: a third of the runs
+		// split most of them, the others few
+		t.RMWs = make([]uint32, p.NSched)
+		pct := 8
+		if r.chance(1, 3) {
+			pct = 60
+		}
+		for i := range t.RMWs {
+			if r.chance(pct, 100) {
+				t.RMWs[i] = 1
 			}
 		}
 	}
@@ -183,6 +196,7 @@ func trimTape(t *Tape, s simrt.Stats) {
 	t.Perms = cut(t.Perms, s.PermsUsed)
 	t.Clocks = cut(t.Clocks, s.ClocksUsed)
 	t.Pools = cut(t.Pools, s.PoolsUsed)
+	t.RMWs = cut(t.RMWs, s.RMWsUsed)
 }
 
 // ---------------------------------------------------------------------------
@@ -359,6 +373,10 @@ func countChans(sum *Summary, s simrt.Stats) {
 		sum.Counters["channel operations that parked their task"] += s.ChanParks
 		sum.Counters["rendezvous on unbuffered channels"] += s.Rendezvous
 		sum.Counters["selects whose first case was chosen by the tape"] += s.SelectChoices
+	}
+	if s.RMWSplits > 0 {
+		sum.Counters["read-modify-write statements on shared locations executed with a yield point between read and write"] += s.RMWSplits
+		sum.Counters["... at which the tape took a scheduling decision"] += s.RMWSwitches
 	}
 	if s.Sleeps > 0 {
 		sum.Counters["time.Sleep calls in simulated time"] += s.Sleeps
